@@ -799,6 +799,27 @@ def _rand_reduce_graph(ir, rng, stats):
     return b, b.graph(outs or [b.vals[-1]])
 
 
+def _stale_shape_reduce_graph(ir, rng, i):
+    """x[2,3,4] -T(0,2,1)-> ReduceMean(axes=[1], keepdims=1) (declared [2,1,3]) -T(0,2,1)-> u -Reshape([2,1,3])-> y, with u's declared
+    shape absent / true / true: when it is absent the reducer's old declared shape must be CLEARED by the fold, else
+    remove_identity_reshapes_ir takes the real Reshape for an identity (.scratch/c02p/defect_transpose_reduce_stale_shape.py)"""
+    b = _Builder(ir, rng)
+    x = b.inp((2, 3, 4))
+    t = _tnode(b, ir, x, [0, 2, 1])
+    attrs = [ir.Attr("keepdims", ir.AttributeType.INT, 1)]
+    ins = [t, b.const(np.asarray([1 if i % 2 else -2], np.int64))]      # (the attribute form of the axes is not valid at the opset of the builder)
+    r = b.val(b.fresh(), (2, 1, 3))
+    b.nodes.append(ir.Node("", "ReduceMean", ins, outputs=[r], name=b.fresh("n"), attributes=attrs))
+    b.vals.append(r)
+    u = _tnode(b, ir, r, [0, 2, 1])
+    u.shape = None if i < 2 else ir.Shape((2, 3, 1))
+    y = b.node("Reshape", [u, b.const(np.asarray([2, 1, 3], np.int64))], (2, 1, 3))
+    return b, b.graph([y])
+
+
+_N_STALE = 4
+
+
 def tie_transpose_reduce_pass(ctx, n_cases):
     import collections
     import onnx_ir as ir
@@ -806,8 +827,17 @@ def tie_transpose_reduce_pass(ctx, n_cases):
     rng = ctx.rng
     stats = collections.Counter()
     rows = []
+    ort_bad = []
     for c in range(n_cases):
-        b, g = _rand_reduce_graph(ir, rng, stats)
+        if c < _N_STALE:
+            b, g = _stale_shape_reduce_graph(ir, rng, c)
+            ort_before = _ort_outputs(_model_bytes(ir, g), c)
+        else:
+            b, g = _rand_reduce_graph(ir, rng, stats)
+            # declared shapes: arbitrary (the decision of the pass does not read them), present or absent on every node output
+            for n in g:
+                for o in n.outputs:
+                    o.shape = None if rng.random() < 0.4 else ir.Shape(tuple(rng.choice([1, 2, 3, 5, "B"]) for _ in range(rng.randint(1, 3))))
         table = {}
 
         def intern(name):
@@ -823,7 +853,11 @@ def tie_transpose_reduce_pass(ctx, n_cases):
                 if cv is not None:
                     consts[intern(v.name)] = [int(x) for x in cv]
             return (nodes, outs), consts
+
+        def shapes_now():
+            return {intern(o.name): dims_of(ir, o) for n in g for o in n.outputs if dims_of(ir, o) is not None}
         before, consts_b = snapshot()
+        shapes_b = shapes_now()
         opt.remove_redundant_transpose_reduce_ir(g)
         # two distinct Value objects under one name: the created axes initializers collide (a finding of its own)
         by_name = {}
@@ -838,14 +872,27 @@ def tie_transpose_reduce_pass(ctx, n_cases):
                         {"tie": "transpose_reduce", "case": c, "seed": ctx.seed, "nodes": [list(map(str, n)) for n in before[0][0]]})
             continue
         after, consts_a = snapshot()
+        shapes_a = shapes_now()
+        out_names = sorted({intern(o.name) for n in g for o in n.outputs})
         stats["graphs_rewritten"] += int(len(before[0]) != len(after[0]))
         stats["nodes_removed"] += len(before[0]) - len(after[0])
-        rows.append((before, consts_b, after, consts_a))
+        stats["declared_shapes_changed"] += sum(1 for k in out_names if shapes_b.get(k) != shapes_a.get(k))
+        rows.append((before, consts_b, after, consts_a, shapes_b, shapes_a, out_names))
+        if c < _N_STALE:
+            opt.remove_identity_reshapes_ir(g)
+            ort_after = _ort_outputs(_model_bytes(ir, g), c)
+            if not _same_outputs(ort_before, ort_after):
+                ort_bad.append((c, str([getattr(x, "shape", x) for x in (ort_before if isinstance(ort_before, list) else [ort_before])]),
+                                str([getattr(x, "shape", x) for x in (ort_after if isinstance(ort_after, list) else [ort_after])])))
     header = common.CASES_HEADER + "From J2O Require Import Graph Redirect ReshapePairPass TransposePairPass TransposeReducePass.\nClose Scope Z_scope.\n" + """
-Definition chk (c : rgraphT * rgraphT) : bool :=
-  let '(g, h) := c in
-  let g' := tr_pass 40 g in
-  list_eqb node_eqb (map (norm_rm g') (rt_nodes g')) (map (norm_rm h) (rt_nodes h)) && leqb (rt_outputs g') (rt_outputs h).
+Definition dims_eqb (a b : option (list dim)) : bool :=
+  match a, b with Some x, Some y => list_eqb dim_eqb x y | None, None => true | _, _ => false end.
+Definition chk (c : rgraphT * rgraphT * (nat -> option (list dim)) * list (nat * option (list dim))) : bool :=
+  let '(g, h, sh, sha) := c in
+  let r := tr_pass_sh 40 g sh in
+  let g' := fst r in
+  list_eqb node_eqb (map (norm_rm g') (rt_nodes g')) (map (norm_rm h) (rt_nodes h)) && leqb (rt_outputs g') (rt_outputs h)
+  && forallb (fun p => dims_eqb (snd r (fst p)) (snd p)) sha.
 """
 
     def lit_nodes(ns):
@@ -855,13 +902,25 @@ Definition chk (c : rgraphT * rgraphT) : bool :=
         return f"(mkRT {lit_nodes(gr[0])} {nl(gr[1])} {coq_fn(consts, '(list Z)', lambda v: '(Some [' + '; '.join(f'({x})%Z' for x in v) + '])')})"
 
     def render(chunk, off):
-        items = [f"({rt(bf, cb)}, {rt(af, ca)})" for bf, cb, af, ca in chunk]
+        items = []
+        for bf, cb, af, ca, shb, sha, names in chunk:
+            shf = coq_fn(shb, '(list dim)', lambda v: '(Some ' + dims_lit(v) + ')')
+            shl = "[" + "; ".join(f"({k}, {'Some ' + dims_lit(sha[k]) if k in sha else 'None'})" for k in names) + "]"
+            items.append(f"({rt(bf, cb)}, {rt(af, ca)}, {shf}, {shl})")
         return "Definition cs := [\n" + ";\n".join(items) + "].\nEval vm_compute in bad_idx_ chk 0 cs.\n"
     bad, err = collect_bad(*coq_eval_batches(ctx, "c02_transpose_reduce", header, rows, render))
-    ctx.oblige(f"tie:TransposeReducePass.v tr_pass == remove_redundant_transpose_reduce_ir ({len(rows)} random graphs, "
-               f"{stats['graphs_rewritten']} rewritten, {stats['nodes_removed']} nodes removed; graphs compared up to the names of the created axes initializers)",
+    ctx.oblige(f"tie:TransposeReducePass.v tr_pass_sh == remove_redundant_transpose_reduce_ir ({len(rows)} graphs, "
+               f"{stats['graphs_rewritten']} rewritten, {stats['nodes_removed']} nodes removed, {stats['declared_shapes_changed']} declared shapes "
+               "copied or cleared; graphs compared up to the names of the created axes initializers, declared shapes of every node output compared)",
                err is None and bad == [], "tie",
-               err if err is not None else f"model and implementation differ on cases {bad[:6]}: {[(rows[i][0], rows[i][2]) for i in bad[:2]]}")
+               err if err is not None else f"model and implementation differ on cases {bad[:6]}: {[(rows[i][0], rows[i][2], rows[i][4], rows[i][5]) for i in bad[:2]]}")
+    ctx.oblige(f"tie:remove_redundant_transpose_reduce_ir + remove_identity_reshapes_ir on the {_N_STALE} stale-shape graphs (T2's output with / "
+               "without a declared shape): onnxruntime outputs (shapes and values) are the same before and after", not ort_bad, "tie",
+               f"outputs differ: {ort_bad[:3]}")
+    for c, sb, sa in ort_bad:
+        ctx.violate("remove_redundant_transpose_reduce_ir:stale-declared-shape",
+                    f"transpose_reduce + identity_reshapes change the model's outputs on stale-shape graph {c}: before {sb} after {sa}",
+                    {"tie": "transpose_reduce", "case": c, "seed": ctx.seed})
     ctx.coverage["transpose_reduce_tie"] = dict(stats)
     return rows, bad
 
@@ -978,4 +1037,219 @@ Definition chk (c : tgraph * (list node * list nat)) : bool :=
                err is None and bad == [], "tie",
                err if err is not None else f"model and implementation differ on cases {bad[:6]}: {[rows[i][:2] for i in bad[:2]]}")
     ctx.coverage["transpose_add_forest_tie"] = dict(stats)
+    return rows, bad
+
+
+# ------------------------------------------------------------------ propagate_unary_shapes_ir (annotation-only)
+def _rand_unary_graph(ir, rng, stats):
+    b = _Builder(ir, rng)
+    for _ in range(rng.randint(1, 2)):
+        b.inp(rng.choice([(2, 3), ("B", 3), (None, 3), (4,)]) if rng.random() < 0.8 else None)
+    ops = ["Relu", "Gelu", "Identity", "Tanh", "Sigmoid", "Swish", "LeakyRelu", "Cast", "CastLike", "Dropout", "Neg", "Exp", "Add", "Transpose"]
+    dts = [ir.DataType.FLOAT, ir.DataType.FLOAT16, ir.DataType.INT64, ir.DataType.BOOL]
+    for _ in range(rng.randint(2, 7)):
+        op = rng.choice(ops)
+        dom = rng.choice(["custom", "ai.onnx"]) if rng.random() < 0.1 else ""
+        x = rng.choice(b.vals)
+        ins = [x]
+        if op in ("CastLike", "Add") or (op == "Dropout" and rng.random() < 0.5):
+            ins.append(rng.choice(b.vals))
+        n_out = 2 if (op == "Dropout" and rng.random() < 0.4) else 1
+        attrs = [ir.Attr("to", ir.AttributeType.INT, int(ir.DataType.INT64))] if op == "Cast" else []
+        outs = []
+        for _k in range(n_out):
+            shp = rng.choice([None, None, (2, 3), ("B", 3), (7,), (None, 3)])
+            v = b.val(b.fresh(), shp)
+            if rng.random() < 0.25:
+                v.type = None
+            elif rng.random() < 0.5:
+                v.type = ir.TensorType(rng.choice(dts))
+            outs.append(v)
+        b.nodes.append(ir.Node(dom, op, ins, outputs=outs, name=b.fresh("n"), attributes=attrs))
+        b.vals.extend(outs)
+        stats["unary_table_nodes"] += int(dom == "" and op in ("Relu", "Gelu", "Identity", "Tanh", "Sigmoid", "Swish", "LeakyRelu", "Cast", "CastLike", "Dropout"))
+    return b, b.graph([b.vals[-1]])
+
+
+def _dtype_code(ir, v):
+    t = getattr(v, "type", None)
+    dt = getattr(t, "dtype", None)
+    return None if dt is None else int(dt)
+
+
+def tie_propagate_unary_shapes(ctx, n_cases):
+    import collections
+    import onnx_ir as ir
+    from jax2onnx.converter import ir_optimizations as opt
+    rng = ctx.rng
+    stats = collections.Counter()
+    rows = []
+    for c in range(n_cases):
+        b, g = _rand_unary_graph(ir, rng, stats)
+        table = {}
+
+        def intern(name):
+            return table.setdefault(name, len(table) + 1)
+        known = {v.name for v in b.inputs + b.consts + b.vals}
+        before = dump(ir, g, intern, known)
+
+        def ann():
+            sh, dt = {}, {}
+            for v in b.inputs + b.consts + b.vals:
+                ds = dims_of(ir, v)
+                if ds is not None:
+                    sh[intern(v.name)] = ds
+                code = _dtype_code(ir, v)
+                if code is not None:
+                    dt[intern(v.name)] = code
+            return sh, dt
+        sh_b, dt_b = ann()
+        opt.propagate_unary_shapes_ir(g)
+        after = dump(ir, g, intern, known)
+        assert after == before, "propagate_unary_shapes_ir changed the nodes"
+        sh_a, dt_a = ann()
+        names = sorted(intern(v.name) for v in b.inputs + b.consts + b.vals)
+        stats["shapes_set"] += sum(1 for k in names if sh_b.get(k) != sh_a.get(k))
+        stats["dtypes_set"] += sum(1 for k in names if dt_b.get(k) != dt_a.get(k))
+        rows.append((before, sh_b, dt_b, sh_a, dt_a, names))
+    header = common.CASES_HEADER + "From J2O Require Import Graph Redirect ReshapePairPass OptGraph PropagateShapes.\nClose Scope Z_scope.\n" + """
+Definition dims_eqb (a b : option (list dim)) : bool :=
+  match a, b with Some x, Some y => list_eqb dim_eqb x y | None, None => true | _, _ => false end.
+Definition oz_eqb (a b : option Z) : bool := match a, b with Some x, Some y => Z.eqb x y | None, None => true | _, _ => false end.
+Definition chk (c : ograph * list (nat * option (list dim)) * list (nat * option Z)) : bool :=
+  let '(g, sha, dta) := c in
+  let g' := o_pass_unary g in
+  forallb (fun p => dims_eqb (o_shape g' (fst p)) (snd p)) sha && forallb (fun p => oz_eqb (o_dtype g' (fst p)) (snd p)) dta.
+"""
+
+    def render(chunk, off):
+        items = []
+        for before, sh_b, dt_b, sh_a, dt_a, names in chunk:
+            og = (f"(mkOG {coq_nodes(before[0])} {nl(before[1])} {coq_fn(dt_b, 'Z', lambda v: f'(Some ({v})%Z)')} "
+                  f"{coq_fn(sh_b, '(list dim)', lambda v: '(Some ' + dims_lit(v) + ')')} (fun _ => false) (fun _ => None) (fun _ => None))")
+            shl = "[" + "; ".join(f"({k}, {'Some ' + dims_lit(sh_a[k]) if k in sh_a else 'None'})" for k in names) + "]"
+            dtl = "[" + "; ".join(f"({k}, {f'Some ({dt_a[k]})%Z' if k in dt_a else 'None'})" for k in names) + "]"
+            items.append(f"({og}, {shl}, {dtl})")
+        return "Definition cs := [\n" + ";\n".join(items) + "].\nEval vm_compute in bad_idx_ chk 0 cs.\n"
+    bad, err = collect_bad(*coq_eval_batches(ctx, "c02_propagate_unary", header, rows, render))
+    ctx.oblige(f"tie:PropagateShapes.v o_pass_unary == propagate_unary_shapes_ir ({len(rows)} random graphs, {stats['unary_table_nodes']} nodes of the "
+               f"table, {stats['shapes_set']} declared shapes and {stats['dtypes_set']} declared dtypes set; nodes untouched, every value's annotation compared)",
+               err is None and bad == [], "tie",
+               err if err is not None else f"model and implementation differ on cases {bad[:6]}: {[rows[i] for i in bad[:2]]}")
+    ctx.coverage["propagate_unary_tie"] = dict(stats)
+    return rows, bad
+
+
+def tie_prune_touches_inputs_only(ctx, n_cases):
+    """the pipeline model treats prune_unused_graph_inputs_ir as the identity on (nodes, graph outputs, initializers, annotations):
+    check that on random graphs (the interface side is property C05)"""
+    import collections
+    import onnx_ir as ir
+    from jax2onnx.converter import ir_optimizations as opt
+    rng = ctx.rng
+    stats = collections.Counter()
+    bad = []
+    for c in range(n_cases):
+        b, g = _rand_unary_graph(ir, rng, stats)
+        table = {}
+
+        def intern(name):
+            return table.setdefault(name, len(table) + 1)
+        known = {v.name for v in b.inputs + b.consts + b.vals}
+
+        def snap():
+            return (dump(ir, g, intern, known), sorted(g.initializers.keys()),
+                    [(v.name, str(v.shape), str(v.type)) for v in b.inputs + b.consts + b.vals])
+        for k in range(rng.randint(0, 2)):      # inputs nobody reads
+            g.inputs.append(b.val(f"spare{c}_{k}", (2,)))
+        before = snap()
+        n_in = len(g.inputs)
+        opt.prune_unused_graph_inputs_ir(g)
+        stats["inputs_dropped"] += n_in - len(g.inputs)
+        if snap() != before:
+            bad.append(c)
+    ctx.oblige(f"tie:prune_unused_graph_inputs_ir touches graph.inputs only ({n_cases} random graphs, {stats['inputs_dropped']} inputs dropped; nodes, graph "
+               "outputs, initializers and every value's declared shape/type unchanged) — the pipeline model's identity", not bad, "tie", f"changed on cases {bad[:5]}")
+    return [], bad
+
+
+# ------------------------------------------------------------------ rewrite_mul_sigmoid_as_swish_ir
+def _rand_swish_graph(ir, rng, stats):
+    b = _Builder(ir, rng)
+    for _ in range(rng.randint(1, 2)):
+        b.inp((2, 3))
+    outs = []
+
+    def dom():
+        return rng.choice(["custom", "ai.onnx"]) if rng.random() < 0.08 else ""
+    for _ in range(rng.randint(1, 3)):
+        x = rng.choice(b.vals)
+        s_in = x if rng.random() < 0.9 else rng.choice(b.vals)
+        s = b.node("Sigmoid" if rng.random() < 0.9 else "Tanh", [s_in], (2, 3), domain=dom())
+        other = x if rng.random() < 0.85 else rng.choice(b.vals)
+        ins = [s, other] if rng.random() < 0.5 else [other, s]
+        if rng.random() < 0.05:
+            ins = [s, s]
+        m = b.node("Mul" if rng.random() < 0.9 else "Add", ins, (2, 3), domain=dom())
+        outs.append(m)
+        r = rng.random()
+        if r < 0.15:
+            outs.append(s)
+            stats["sigmoid_is_output"] += 1
+        elif r < 0.3:
+            outs.append(b.node("Relu", [s], (2, 3)))
+            stats["sigmoid_extra_consumer"] += 1
+        elif r < 0.4:
+            outs.append(b.if_capturing([s]))
+            stats["sigmoid_captured"] += 1
+        if rng.random() < 0.3:
+            outs.append(b.node("Relu", [m], (2, 3)))
+    opset = 24 if rng.random() < 0.85 else 23
+    uniq = []
+    for v in outs:
+        if v not in uniq:
+            uniq.append(v)
+    g = ir.Graph(b.inputs, uniq, nodes=b.nodes, initializers=b.consts, name="g", opset_imports={"": opset})
+    return b, g, opset
+
+
+def tie_swish_pass(ctx, n_cases):
+    import collections
+    import onnx_ir as ir
+    from jax2onnx.converter import ir_optimizations as opt
+    rng = ctx.rng
+    stats = collections.Counter()
+    rows = []
+    for c in range(n_cases):
+        b, g, opset = _rand_swish_graph(ir, rng, stats)
+        table = {}
+
+        def intern(name):
+            return table.setdefault(name, len(table) + 1)
+        known = {v.name for v in b.inputs + b.consts + b.vals}
+        before = dump(ir, g, intern, known)
+        opt.rewrite_mul_sigmoid_as_swish_ir(g)
+        known |= {o.name for n in g for o in n.outputs}
+        after = dump(ir, g, intern, known)
+        stats["graphs_rewritten"] += int(before != after)
+        stats["swish_nodes"] += sum(1 for n in after[0] if n[0] == "Swish")
+        stats["sigmoids_removed"] += len(before[0]) - len(after[0])
+        stats["below_opset_24"] += int(opset < 24)
+        rows.append((before, after, opset))
+    header = common.CASES_HEADER + "From J2O Require Import Graph Redirect ReshapePairPass TransposePairPass SwishPass.\nClose Scope Z_scope.\n" + """
+Definition chk (c : graph * (list node * list nat) * nat) : bool :=
+  let '(g, (ns, outs), opset) := c in
+  let g' := swish_pass opset 40 g in
+  list_eqb node_eqb (g_nodes g') ns && leqb (g_outputs g') outs.
+"""
+
+    def render(chunk, off):
+        items = [f"(mkGraph {coq_nodes(bf[0])} {nl(bf[1])}, ({coq_nodes(af[0])}, {nl(af[1])}), {op})" for bf, af, op in chunk]
+        return "Definition cs := [\n" + ";\n".join(items) + "].\nEval vm_compute in bad_idx_ chk 0 cs.\n"
+    bad, err = collect_bad(*coq_eval_batches(ctx, "c02_swish", header, rows, render))
+    ctx.oblige(f"tie:SwishPass.v swish_pass == rewrite_mul_sigmoid_as_swish_ir ({len(rows)} random graphs, {stats['graphs_rewritten']} rewritten, "
+               f"{stats['swish_nodes']} Swish nodes, {stats['sigmoids_removed']} Sigmoid nodes removed, {stats['below_opset_24']} graphs below opset 24)",
+               err is None and bad == [], "tie",
+               err if err is not None else f"model and implementation differ on cases {bad[:6]}: {[rows[i] for i in bad[:2]]}")
+    ctx.coverage["swish_tie"] = dict(stats)
     return rows, bad
